@@ -17,7 +17,8 @@ OBLIGATIONS = [NS + t for t in [
     "mclass_error_eq_count_sign", "binary_error_iff_sign",
     # benchmark functions
     "sphere_subgrad", "axis_ellipsoid_subgrad", "schumer_steiglitz_subgrad", "chung_reynolds_subgrad", "sargan_subgrad",
-    "zakharov_subgrad", "rotated_ellipsoid_subgrad", "trid_subgrad", "quadratic_subgrad", "maxq_subgrad", "maxhilb_subgrad",
+    "zakharov_subgrad", "rotated_ellipsoid_subgrad", "trid_subgrad", "quadratic_subgrad", "maxq_subgrad", "maxquad_subgrad",
+    "maxhilb_subgrad",
     "chained_lq_subgrad", "kinks_subgrad", "chained_cb3I_subgrad", "chained_cb3II_subgrad", "exponential_fn_subgrad",
     "geometric_subgrad",
     "elastic_net_subgrad", "elastic_net_kernels",
@@ -28,16 +29,37 @@ OBLIGATIONS = [NS + t for t in [
     # derivatives of the smooth scalar kernels
     "mse_hasDerivAt", "sqhinge_hasDerivAt", "logistic_hasDerivAt", "exponential_hasDerivAt", "cauchy_hasDerivAt",
     "savage_hasDerivAt", "tangent_hasDerivAt",
+    # the returned gradient is the derivative of the returned value along every line: smooth benchmark functions
+    "hasDerivAt_line_everywhere",
+    "sphere_hasDerivAt_line", "axis_ellipsoid_hasDerivAt_line", "schumer_steiglitz_hasDerivAt_line", "qing_hasDerivAt_line",
+    "styblinski_tang_hasDerivAt_line", "chung_reynolds_hasDerivAt_line", "sargan_hasDerivAt_line", "zakharov_hasDerivAt_line",
+    "exponential_fn_hasDerivAt_line", "cauchy_fn_hasDerivAt_line", "rotated_ellipsoid_hasDerivAt_line", "trid_hasDerivAt_line",
+    "rosenbrock_hasDerivAt_line", "dixon_price_hasDerivAt_line", "powell_hasDerivAt_line", "quadratic_hasDerivAt_line",
+    "geometric_hasDerivAt_line", "elastic_net_ridge_hasDerivAt_line", "elastic_net_smooth_kernels",
+    # ... smooth losses as functions of the prediction vector
+    "loss_hasDerivAt_line", "classnll_shift_hasDerivAt_line", "classnll_hasDerivAt_line", "classnll_value_eps_close",
+    # ... objects not declared smooth: derivative wherever no kink / tie is hit
+    "mae_hasDerivAt_line_off_kinks", "hinge_hasDerivAt_line_off_kinks", "pinball_hasDerivAt_line_off_kinks",
+    "elastic_net_hasDerivAt_line_off_kinks", "elastic_net_kernels_off_kinks", "chained_lq_hasDerivAt_line_off_ties",
+    "chained_cb3I_hasDerivAt_line_off_ties", "chained_cb3II_hasDerivAt_line_off_ties", "kinks_hasDerivAt_line_off_kinks",
+    "maxq_hasDerivAt_line_off_ties", "maxquad_hasDerivAt_line_off_ties", "maxhilb_hasDerivAt_line_off_ties",
+    # ... smooth constraint kinds
+    "ball_hasDerivAt_line", "linear_hasDerivAt_line", "cquad_hasDerivAt_line", "minimum_hasDerivAt_line",
+    "maximum_hasDerivAt_line",
+    # ... compositions (ML objectives)
+    "affine_comp_hasDerivAt_line", "sum_hasDerivAt_line", "ridge_hasDerivAt_line",
     # declared flags
-    "flags_covered", "strong_covered", "strong_values_covered",
+    "flags_covered", "smooth_covered", "gradient_covered", "strong_covered", "strong_values_covered",
 ]]
 TRUSTED = [
     "Lean 4.33.0 kernel; Mathlib modules imported by NanoVerif/Proofs/C06*.lean and NanoVerif/Props/C06.lean (Tactic.Ring, "
-    "Tactic.Linarith, Tactic.Positivity, Algebra.Order.Field.Basic, Analysis.SpecialFunctions.Exp / Log.Basic / Log.Deriv / "
-    "Trigonometric.ArctanDeriv, Analysis.Calculus.Deriv.*)",
+    "Tactic.Linarith, Tactic.Positivity, Algebra.Order.Field.Basic, Analysis.SpecialFunctions.Exp / ExpDeriv / Log.Basic / Log.Deriv / "
+    "Sqrt / Trigonometric.Arctan / Trigonometric.ArctanDeriv, Analysis.Calculus.Deriv.* through these)",
+    "the definition `line x d t = vadd x (smul t d)` (NanoVerif/Proofs/C06Line.lean) through which the derivative theorems are stated: "
+    "HasDerivAt (fun t => f (line x d t)) (dot (g x) d) 0 for all x, d of equal length (Mathlib's HasDerivAt over R)",
     "axioms: at most propext, Classical.choice, Quot.sound (audited per theorem on every run)",
-    "hand-written models NanoVerif/Model/Loss.lean (17 losses: value, vgrad, error) and NanoVerif/Model/Functions.lean (47 of the 48 "
-    "benchmark prototypes — all but maxquad; the 24 elastic-net prototypes through one generic definition —, 9 of the 11 constraint "
+    "hand-written models NanoVerif/Model/Loss.lean (17 losses: value, vgrad, error) and NanoVerif/Model/Functions.lean (all 48 "
+    "benchmark prototypes; the 24 elastic-net prototypes through one generic definition —, 9 of the 11 constraint "
     "kinds directly and the two functional kinds through the function models); tied to the "
     "code by the correspondence run (harness/c06.cpp on the real code vs the compiled Lean driver at Float, relative tolerance below)",
     "instances of the class Transc: std::exp/log/log1p/atan are Real.exp/Real.log/log(1+.)/Real.arctan in the proofs and libm at Float "
@@ -45,7 +67,9 @@ TRUSTED = [
     "NanoVerif/Gen/Flags.lean is a dump of the flags the implementation declares (harness op `dump flags`), regenerated on every run",
     "parameters drawn at construction by libnano's RNG (kinks, quadratic, geometric-optimization, the synthetic data of the "
     "elastic-net prototypes) are reproduced in the harness with the constructor's own calls and handed to the model; the "
-    "regularisation factors of the elastic-net prototypes are read from their ids",
+    "regularisation factors of the elastic-net prototypes are read from their ids; the five matrices / vectors of maxquad (private "
+    "members) are recomputed in the harness with a copy of the two fill() formulas of maxquad.cpp:7-43 (a changed formula in the "
+    "source shows up as a model/implementation disagreement)",
     "tools/props/c06.py generator + oracle (difference quotients, convexity inequality, error rules); harness/c06.cpp incl. its random "
     "local search for violating pairs (its results are re-checked by the python oracle); g++/libstdc++/Eigen",
 ]
@@ -60,10 +84,30 @@ ASSUMPTIONS = [
     "(hypotheses of quadratic_subgrad); the quadratic constraint kinds (symmetrised gradient, 78c1895) for every square P with "
     "d.Pd >= 0 (hypothesis of cquad_subgrad, no symmetry needed); the eigenvalue tests of nano::convex / nano::strong_convexity "
     "(Eigen) that decide these hypotheses and the declared coefficients of quadratic / quadratic constraints are tested only",
-    "non-convex benchmark functions and losses: gradient correctness by difference quotients only (plus HasDerivAt for the scalar kernels)",
+    "gradient = derivative: a theorem (X_hasDerivAt_line: the directional derivative of the modelled value along every direction d is "
+    "g(x).d, all dimensions) for every object that declares itself smooth — the 17 smooth benchmark functions incl. the non-convex qing, "
+    "cauchy, powell, rosenbrock, dixon-price, styblinski-tang, the <mse|logistic>+ridge prototypes, the 13 smooth losses, all constraint "
+    "kinds (theorem smooth_covered over the dumped flags; the list is in the evidence `explanation`). Hypotheses: quadratic needs its matrix "
+    "self-adjoint (A = I + R R' is; for a non-symmetric A the returned a + A x is not the derivative: example in Props/C06.lean); the "
+    "quadratic constraint kinds need nothing (symmetrised gradient); geometric-optimization needs the shapes to match. Objects NOT "
+    "declared smooth (mae, hinge, pinball, maxq, maxhilb, chained_lq, chained_cb3I/II, kinks, the lasso / elasticnet / mae+ / hinge+ / "
+    "cauchy+ prototypes): the returned sub-gradient is the derivative along every line at every point that avoids the kinks / ties of "
+    "the formula (X_hasDerivAt_line_off_kinks / _off_ties, side condition spelled out per theorem: outputs off the kink of the kernel, "
+    "no zero coordinate for an l1 term, the selected piece / index the STRICT maximum, maxhilb's maximum non-zero); ON a kink the code "
+    "returns one sub-gradient (X_subgrad where convex; one-sided difference quotients in the search). Theorem gradient_covered: every "
+    "dumped object is on provenSmooth, provenOffKinks or an explicit tested-only list (both tested-only lists are empty)",
+    "maxquad is convex under the hypothesis that its matrices A_k are self-adjoint and positive semi-definite (hypotheses of maxquad_subgrad; "
+    "the constructor's matrices are symmetric and diagonally dominant with a positive diagonal, which is not re-proved from the "
+    "exp/cos/sin formulas: the search tests the inequality on the real matrices)",
+    "s-classnll as coded adds epsilon inside the logarithm of the value but not in the gradient: the returned gradient is exactly the "
+    "gradient of the epsilon = 0 value (classnll_hasDerivAt_line; for any shift rule: classnll_shift_hasDerivAt_line), and the coded value "
+    "differs from that one by at most log(1+epsilon) <= 2.3e-16 uniformly (classnll_value_eps_close); it is not the exact derivative of the "
+    "coded value (relative deviation of the order of epsilon, and the epsilon-term has a kink where the maximal output is tied)",
     "ML objectives (linear / gboost / surrogate): convexity follows from affine_comp_subgrad + sum_subgrad + ridge_subgrad_mu / "
-    "ridge_partial_subgrad_mu given the loss kernel's inequality (carried out in full for the elastic-net prototypes: "
-    "elastic_net_subgrad); their plumbing (dataset iteration, accumulation over threads) is tested, not modelled",
+    "ridge_partial_subgrad_mu given the loss kernel's inequality, gradient = derivative from affine_comp_hasDerivAt_line + "
+    "sum_hasDerivAt_line + ridge_hasDerivAt_line given loss_hasDerivAt_line (both carried out in full for the elastic-net prototypes: "
+    "elastic_net_subgrad, elastic_net_ridge_hasDerivAt_line); their plumbing (dataset iteration, accumulation over threads) is "
+    "tested (difference quotients), not modelled",
 ]
 RTOL = 1e-9
 RULE = ("corpus; all function prototypes of function_t::all() x dims (quick: 1, 2 and 6 further of 1..32; thorough: 1..32) x summands "
@@ -85,7 +129,7 @@ DUMP_DIMS = [1, 2, 3, 4, 8, 16, 32]
 RADII = [1e-3, 1e-2, 1e-1, 1.0, 10.0]
 MODELLED_FN = {"sphere", "axis-ellipsoid", "schumer-steiglitz", "qing", "styblinski-tang", "chung-reynolds", "sargan", "zakharov",
                "rotated-ellipsoid", "trid", "chained_lq", "rosenbrock", "dixon-price", "powell", "maxq", "maxhilb", "chained_cb3I",
-               "chained_cb3II", "exponential", "cauchy", "kinks", "quadratic", "geometric-optimization"}
+               "chained_cb3II", "exponential", "cauchy", "kinks", "quadratic", "geometric-optimization", "maxquad"}
 MODELLED_CT = {"constant", "minimum", "maximum", "ball-eq", "ball-ineq", "linear-eq", "linear-ineq", "quadratic-eq", "quadratic-ineq"}
 CT_KINDS = ["constant", "minimum", "maximum", "ball-eq", "ball-ineq", "linear-eq", "linear-ineq", "quadratic-eq", "quadratic-ineq",
             "functional-eq", "functional-ineq"]
@@ -202,8 +246,41 @@ def dump():
     return _DUMP
 
 
+EXPLANATION = "see rule / trusted_base"
+
+
+def _coverage_lists(name):
+    """the list `name : List (Obj x String)` of Props/C06.lean (the lists the theorems flags_covered / smooth_covered decide over)"""
+    src = open(os.path.join(vlib.LEAN, "NanoVerif", "Props", "C06.lean")).read()
+    m = re.search(r"def %s : List \(Obj × String\) := \[(.*?)\]\n" % name, src, re.S)
+    if m is None:
+        return None
+    return re.findall(r'\(\.(\w+),\s*"([^"]*)"\)', m.group(1))
+
+
+def smooth_coverage(d):
+    """(proved: {id: theorem}, tested only: {id: reason}, uncovered ids) for the objects the implementation declares smooth"""
+    proven = dict(_coverage_lists("provenSmooth") or [])
+    tested = dict(_coverage_lists("testedOnlySmooth") or [])
+    rows = [("fn", "fn:", r) for r in d["fns"]] + [("loss", "loss:", r) for r in d["losses"]] + [("ct", "ct:", r) for r in d["cts"]]
+    pr, te, un = {}, {}, []
+    for pre, tagp, r in rows:
+        if not r["smooth"]:
+            continue
+        n = lean_name(pre, r["id"])
+        if n in proven:
+            pr[tagp + r["id"]] = proven[n]
+        elif n in tested:
+            te[tagp + r["id"]] = tested[n]
+        elif tagp + r["id"] not in un:
+            un.append(tagp + r["id"])
+    return pr, te, un
+
+
 def static_checks():
-    """the dump must cover what the statement quantifies over"""
+    """the dump must cover what the statement quantifies over; every object declared smooth is on one of the two lists of
+    Props/C06.lean (python mirror of the theorem smooth_covered) and every theorem named there is an audited obligation"""
+    global EXPLANATION
     d = dump()
     bad = []
     ids = {r["id"] for r in d["fns"]}
@@ -211,6 +288,44 @@ def static_checks():
         bad.append(f"only {len(ids)} function prototypes registered (the statement names 48)")
     if len(d["losses"]) < 17:
         bad.append(f"only {len(d['losses'])} losses registered (the statement names 17)")
+    if _coverage_lists("provenSmooth") is None or _coverage_lists("testedOnlySmooth") is None:
+        bad.append("Props/C06.lean: the lists provenSmooth / testedOnlySmooth are not found")
+        return bad
+    pr, te, un = smooth_coverage(d)
+    for i in un:
+        bad.append(f"{i} declares itself smooth but has neither a derivative theorem nor a tested-only entry")
+    offk = dict(_coverage_lists("provenOffKinks") or [])
+    offt = dict(_coverage_lists("testedOnlyOffKinks") or [])
+    po, to = {}, {}
+    for pre, tagp, k in (("fn", "fn:", "fns"), ("loss", "loss:", "losses"), ("ct", "ct:", "cts")):
+        for r in d[k]:
+            if r["smooth"]:
+                continue
+            n, i = lean_name(pre, r["id"]), tagp + r["id"]
+            if n in offk:
+                po[i] = offk[n]
+            elif n in offt:
+                to[i] = offt[n]
+            elif i not in pr and i not in te:
+                bad.append(f"{i} (not declared smooth) has neither an off-kink derivative theorem nor a tested-only entry")
+    for i, thms in list(pr.items()) + list(po.items()):
+        for th in re.split(r"\s*\+\s*", thms):
+            if NS + th not in OBLIGATIONS:
+                bad.append(f"{i}: the derivative theorem {th} named in Props/C06.lean is not an audited obligation")
+
+    def by_thm(m):
+        g = {}
+        for i, th in m.items():
+            g.setdefault(th, []).append(i)
+        return "; ".join(f"{th}: {', '.join(sorted(v))}" for th, v in sorted(g.items()))
+
+    EXPLANATION = (
+        f"gradient = derivative along every line (HasDerivAt, all dimensions). Objects declaring themselves smooth: {len(pr)} with an "
+        f"unconditional theorem, {len(te)} difference-quotient-tested only. Theorems: " + by_thm(pr)
+        + ". Tested only: " + ("; ".join(f"{i} ({why})" for i, why in sorted(te.items())) or "none")
+        + f". Objects not declared smooth: {len(po)} with a theorem at every point off the kinks / ties (on a kink: the sub-gradient "
+        f"inequality where convex, one-sided difference quotients), {len(to)} tested only. Theorems: " + by_thm(po)
+        + ". Tested only: " + ("; ".join(f"{i} ({why})" for i, why in sorted(to.items())) or "none"))
     return bad
 
 
